@@ -235,12 +235,41 @@ def run_entrypoints(ctx, spec):
       if not ctx.want('e%d' % i):
         continue
       ntests = rng.randint(1, 3)
+      min_rep = rng.choice([1, 1, 2, 3])
       scripts = []
-      for t in range(ntests):
-        ln = rng.randint(1, 4)
-        sc = [rng.choice([0.0, 1e-12, 1e-9, 5e-9, 1e-4, 0.009, 0.01, 0.011,
-                          0.3, 1.0]) for _ in range(ln)]
-        sc[-1] = rng.choice([0.5, 1.0, 0.0, 1e-30])   # terminates the loop
+      crafted = {
+          # a sub-test dips below the fail level in an early round and
+          # recovers in later ones (the verdict is the final state)
+          0: (2, [[5e-10, 0.9, 1.0, 1.0, 1.0, 1.0, 1.0]]),
+          1: (1, [[[('a', 5e-10), ('b', 0.005)], [('a', 0.9), ('b', 0.9)]] +
+                  [[('a', 1.0), ('b', 1.0)]] * 6]),
+          2: (3, [[[('x', 9e-10)], [('x', 1.0)], [('x', 1.0)], [('x', 1.0)],
+                   [('x', 1.0)], [('x', 1.0)]]]),
+          3: (2, [[5e-10, 0.9, 1.0, 1.0, 1.0, 1.0], [0.5]]),
+          # and the converse: fine first, failing in the last round
+          4: (2, [[0.5, 1e-30, 1e-30]]),
+      }
+      if i in crafted:
+        min_rep, scripts = crafted[i]
+        scripts = [list(sc) for sc in scripts]
+        ntests = len(scripts)
+        ctx.count('crafted_recovery_scripts')
+      for t in range(ntests if i not in crafted else 0):
+        ln = rng.randint(1, 5)
+        alpha = [0.0, 1e-12, 5e-10, 9e-10, 1e-9, 5e-9, 1e-4, 0.009, 0.01,
+                 0.011, 0.3, 0.9, 1.0]
+        if rng.chance(1, 2):
+          # named sub-tests: a sibling that stays undecided keeps the test
+          # running while another dips below the fail level and recovers
+          sc = [[('a', rng.choice(alpha)), ('b', rng.choice(alpha))]
+                for _ in range(ln)]
+          sc[-1] = [('a', rng.choice([0.9, 1.0])), ('b', rng.choice(
+              [0.9, 1.0, 0.0]))]
+          sc += [[('a', 1.0), ('b', 1.0)]] * 3
+        else:
+          sc = [rng.choice(alpha) for _ in range(ln)]
+          sc[-1] = rng.choice([0.5, 1.0, 0.0, 1e-30])
+          sc += [1.0] * 3                                # terminates the loop
         scripts.append(sc)
       calls = [0] * ntests
 
@@ -264,7 +293,8 @@ def run_entrypoints(ctx, spec):
         ctx.distinct(entry, tuple(map(tuple, scripts)))
         try:
           if entry == 'TestSource':
-            got = rts.TestSource(source, 64, 0.01, 1e-9, log_level=0)
+            got = rts.TestSource(source, 64, 0.01, 1e-9, log_level=0,
+                                 min_repetitions=min_rep)
           else:
             got = rts.TestBitString(0, 64, 1e-9, log_level=0)
         except Exception as e:  # pylint: disable=broad-except
@@ -274,7 +304,8 @@ def run_entrypoints(ctx, spec):
         # model
         want = False
         for t in range(ntests):
-          m = ModelStructure(1e-9, 0.01 if entry == 'TestSource' else 1e-9, 1)
+          m = ModelStructure(1e-9, 0.01 if entry == 'TestSource' else 1e-9,
+                             min_rep if entry == 'TestSource' else 1)
           for j in range(10 ** 3):
             fin = m.run(scripts[t][min(j, len(scripts[t]) - 1)])
             if fin or entry == 'TestBitString':
@@ -358,9 +389,31 @@ def run_population(ctx, spec):
                         {'gen': gname, 'seed': seed, 'name': name})
         ctx.minc('min:pvalue_x1e12', int(min(p, 1.0) * 1e12))
     # the entry point itself, on the NIST + extended part (FindBias is slow)
-    if i == 0:
+    if i == 0 and spec['logn'] == 20 and int(
+        spec['shard'].split('-')[1]) % 2 == 0:
+      # both entry points, whole suite (incl. the lattice tests)
+      ctx.count('evaluations')
+      if rts.TestBitString(bits, n, log_level=0) is not False:
+        ctx.violation('entry-point-fails-cryptographic-generator',
+                      'TestBitString returned True for 2^20 bits of %s(seed='
+                      '%d)' % (gname, seed), {'gen': gname, 'seed': seed})
+      ctx.count('entry_point_good_runs')
+      if int(spec['shard'].split('-')[1]) % 8 == 0:
+        state = {'calls': 0}
+
+        def source(nbits, _g=gname, _s=seed):
+          state['calls'] += 1
+          return rrng.GetRng(_g).RandomBits(nbits, seed=_s + state['calls'])
+        ctx.count('evaluations')
+        if rts.TestSource(source, n, log_level=0) is not False:
+          ctx.violation('entry-point-fails-cryptographic-generator',
+                        'TestSource returned True for %s' % gname,
+                        {'gen': gname, 'seed': seed})
+        ctx.count('testsource_good_runs')
+        ctx.maxc('max:testsource_samples_drawn', state['calls'])
+    elif i == 0:
       for prefix in ('Frequency', 'Serial', 'LargeBinaryMatrixRank',
-                     'RandomWalk'):
+                     'LinearComplexityScatter', 'RandomWalk'):
         ctx.count('evaluations')
         if rts.TestBitString(bits, n, test_prefix=prefix, log_level=0):
           ctx.violation('entry-point-fails-cryptographic-generator',
@@ -448,7 +501,8 @@ def finalize(agg, tier):
   c['population_names'] = len(names)
   c['population_smallest_tail_x1e12'] = int(worst * 1e12)
   for k in ('histories', 'entry_point_runs', 'weak_pairs_failed_as_documented',
-            'entry_point_good_runs', 'sequences:shake128', 'sequences:pcg64',
+            'entry_point_good_runs', 'testsource_good_runs',
+            'sequences:shake128', 'sequences:pcg64',
             'sequences:philox'):
     if not c.get(k):
       inc.append('reach counter %s is zero' % k)
